@@ -167,13 +167,18 @@ class Loader:
                 return n
         raise core.Inconclusive("function %s.%s not found (anchor missing)" % (modname, fname))
 
-    def slice_function(self, modname, fname, first, last, params, returns, name="_slice", extra_globals=None):
+    def slice_function(self, modname, fname, first, last, params, returns, name="_slice", extra_globals=None, within=None):
         """Cut a statement range out of a function's body (top-level statements of that function) by structural anchors
         and compile it as a function of its free variables.  first/last: predicates on (ast stmt, source text).
         The sliced statements are the repository's own text; a missing anchor is an Inconclusive (exit 3), never a pass."""
         fn = self.func_ast(modname, fname)
         src = self.source(modname)
         body = fn.body
+        if within is not None:      # statements of a nested compound statement (e.g. the body of a particular loop)
+            holder = next((n for n in ast.walk(fn) if hasattr(n, "body") and n is not fn and within(n, ast.get_source_segment(src, n) or "")), None)
+            if holder is None:
+                raise core.Inconclusive("slice anchor (within) not found in %s.%s" % (modname, fname))
+            body = holder.body
         i0 = next((i for i, st in enumerate(body) if first(st, ast.get_source_segment(src, st) or "")), None)
         if i0 is None:
             raise core.Inconclusive("slice anchor (first) not found in %s.%s" % (modname, fname))
@@ -181,9 +186,11 @@ class Loader:
         if i1 is None:
             raise core.Inconclusive("slice anchor (last) not found in %s.%s" % (modname, fname))
         stmts = body[i0:i1 + 1]
-        ret = ast.Return(value=ast.Tuple(elts=[ast.Name(id=r, ctx=ast.Load()) for r in returns], ctx=ast.Load()))
+        tail = []
+        if returns is not None:      # returns=None: the range ends with the function's own return statement
+            tail = [ast.Return(value=ast.Tuple(elts=[ast.Name(id=r, ctx=ast.Load()) for r in returns], ctx=ast.Load()))]
         f = ast.FunctionDef(name=name, args=ast.arguments(posonlyargs=[], args=[ast.arg(arg=p) for p in params], kwonlyargs=[], kw_defaults=[], defaults=[]),
-                            body=list(stmts) + [ret], decorator_list=[], type_params=[])
+                            body=list(stmts) + tail, decorator_list=[], type_params=[])
         mod = ast.Module(body=[f], type_ignores=[])
         ast.fix_missing_locations(mod)
         m = self.load(modname)
